@@ -13,8 +13,9 @@ Esm  == Cfg.esm
 Rec  == ndJsonDeserialize(IOEnv.VERIF_TRACE)
 
 VARIABLE i
-Init == i \in DOMAIN Rec
-Next == UNCHANGED i
+\* (records are judged in successor states, i.e. by TLC's worker threads, whose stack size is configurable)
+Init == i = 0
+Next == i = 0 /\ i' \in DOMAIN Rec
 Spec == Init /\ [][Next]_i
 
 R     == Rec[i]
@@ -25,6 +26,7 @@ Real  == [ok |-> R.real.ok, spec |-> R.real.spec]
 Holds == C08_Holds(Cwd, FromP, ToP, Esm, Real)
 Equal == Real = ModelResult(Cwd, FromP, ToP, Esm)
 
-Judge == /\ (Holds \/ PrintT(<<"BAD", ToJson(i)>>))
+Judge == i = 0 \/
+         /\ (Holds \/ PrintT(<<"BAD", ToJson(i)>>))
          /\ (Equal \/ PrintT(<<"DRIFT", ToJson(i)>>))
 =============================================================================
